@@ -159,7 +159,12 @@ C16_AnnouncedOnceInOrder ==
        /\ Len(a) = Len(e) + 1 /\ a[1][3] = None /\ a[1][4] = "CREATED"
        /\ \A i \in 1..Len(e) : a[i + 1][3] = e[i][2] /\ a[i + 1][4] = e[i][3]
 \* a terminated process no longer receives messages
-C16_Unsubscribed == S.comm => (S.closed => ~S.subs)
+C16_Unsubscribed == S.comm => (S.closed => S.subs = {})
+\* ... and a process that could be constructed listens to whatever the communicator let it subscribe to: a subscription that
+\* timed out does not take the other one with it
+SubFaults(s, h) == \E i \in 1..Len(s.log) : s.log[i][1] = "fault" /\ s.log[i][2] = h
+C16_Subscribed == (S.comm /\ S.born /\ ~S.closed /\ S.restores = 0) =>
+                     S.subs = {k \in {"rpc", "bcast"} : ~SubFaults(S, IF k = "rpc" THEN "sub_rpc" ELSE "sub_bc")}
 \* the reply of a control message is the outcome of the call its handler made
 RpcCalls(s) == SelectSeq(s.log, LAMBDA e : e[1] = "call" /\ e[6] = "rpc")
 C16_Reply ==
